@@ -20,6 +20,22 @@ CLAIMS = {
  'C10': dict(cat='other', tech='atomic-operation census + provenance of positions + interior-mutability census of the type tree (type-level query) + lock-closure census',
    text='Decides R10.1-R10.5: each position (per-pattern match index, global ordered slot) is the return value of exactly one SeqCst/AcqRel fetch_add(1) on a dedicated atomic and reaches the lookup unchanged; no load/store/CAS on those atomics on the call path (no check-then-act); the only interior mutability reachable from the mock is the two atomics, the MutexIsh lock, the per-instance OnceCells and Send+Sync type-erased boxes; nobody gets &mut to the Arc-shared state; no user code runs under a lock. These are the mechanism that makes every interleaving assign distinct consecutive positions; the suite never runs two threads on one pattern.',
    note='Not decided: interleavings are not enumerated and no thread is run - the claim is the atomicity mechanism plus the std contract that fetch_add returns each previous value exactly once. Trusted: rustc type information and MIR, exporter, rule engine, std atomics/Mutex contracts.'),
+
+ 'C01': dict(cat='other', tech='traversal-class analysis of the selector pipeline + decision table of the accept closure + who-may-call/provenance census of the match counter + append-only census of pattern lists',
+   text='Decides R01.1-R01.5: the unordered arm of the selector is a forward first-hit iterator pipeline over the called method\'s own pattern list; the accept closure consults only the matcher (Ok(true) select, Ok(false) skip, Err error) and reads no pattern state; the match counter is bumped from one site, exactly once, on exactly the selected pattern; pattern lists are append-only and built in clause order (assembler push table, Each::call/deconstruct, tuple impls 2..16 left to right); the list consulted is the one filed under TypeId::of::<F>() of the called MockFn. Together: the answer is the least declared index whose matcher accepts, independent of history.',
+   note='Not decided: no history is executed; an explicit-loop rewrite of the scan is reported as UNRECOGNISED (fail closed). Trusted: rustc MIR, exporter, rule engine, std iterator adaptor contracts.'),
+ 'C02': dict(cat='other', tech='linear-offset analysis of the builder arithmetic + call-site table of the builder API + provenance of the call index + normal-form match of the segment lookup + decision table of eval::eval',
+   text='Decides R02.1-R02.5: quantify advances the running response index and the minimum by exactly the repeat count, push_responder records at the running index; every builder API function pushes before quantifying and passes the documented (count, exactness); the call index is the pre-increment fetch_add value with offset 0; the segment lookup is in the normal form greatest-start<=k (binary_search_by with element-vs-target comparator, Ok(i)->i, Err(p)->p-1; or partition_point(start<=k)-1); eval::eval maps each responder kind to its outcome, an exhausted single-use value to CannotReturnValueMoreThanOnce, and never fabricates a value. Off-by-one and boundary faults are separate rows here; no test sits on them.',
+   note='Not decided: a lookup algorithm outside the recognised idioms is UNRECOGNISED (fail closed); for equal segment starts (zero-count segment) binary_search_by is documented to return any match - accepted as an assumption recorded in the evidence. Trusted: rustc MIR, exporter, rule engine, std contracts (binary_search_by, partition_point, fetch_add).'),
+ 'C03': dict(cat='other', tech='decision table over exactness x order partition of (actual - minimum) extracted from MIR + loop-completeness (traversal class) + provenance of accumulators and messages',
+   text='Decides R03.1-R03.5: CallCounter::verify pushes exactly one error iff the quantifier is violated, on every region of the partition d = actual - minimum in {-2..2} for each exactness (Exact: d!=0, AtLeast: d<0, AtLeastPlusOne: d<=0); FnMocker::verify visits every pattern once with the caller\'s error vector, sums the returned counts with offset 0 and pushes MockNeverCalled iff the sum is 0; teardown visits every method and returns exactly that vector; teardown_panic / teardown_report render every element; the builder stores the documented (minimum, exactness) pairs, which reach the counter unchanged; each error line carries path, pattern, bound and actual count.',
+   note='Not decided: wording/layout of the message. Trusted: rustc MIR, exporter, rule engine, std contracts.'),
+ 'C04': dict(cat='other', tech='linear-offset equations of slot assignment + who-may-call and dominance of the slot bump + order-partition evaluation of the slot predicate + decision table of the ordered selector arm',
+   text='Decides R04.1-R04.6: ordered patterns get consecutive ranges (start = cursor, end = cursor + exact count, cursor\' = end), unordered ones none; the global slot counter is advanced by one atomic RMW from one site inside the ordered arm, unordered calls never reach it; the RMW result is the index used for lookup and in error payloads; the slot predicate is start <= i < end on every region of the partition, evaluated in the called method\'s own list; the ordered arm runs the matcher once on exactly the slot owner and turns every deviation (no owner, matcher error, rejected arguments) into an error; unquantified ordered clauses are exactly-once; the response inside a slot range is chosen by the pattern\'s own counter.',
+   note='Not decided: nothing is run. Trusted: rustc MIR, exporter, rule engine, std contracts (fetch_add, Iterator::find).'),
+ 'C07': dict(cat='other', tech='decision-table extraction over MIR (eval_dyn, eval::eval, Continuation::report, constructors) + effect constraints on counters',
+   text='Decides R07.1-R07.4: the decision table of eval_dyn over (mentioned, default body, partial-by-default, fallback mode, selector result, responder) equals the documented resolution order (default impl > partial-by-default > fallback mode; unmatched: strict error / partial unmock); counters are untouched on every path that selects no pattern and the diagnostics loop only runs the matcher; new/new_partial pass Error/Unmock and fallback_mode is never written afterwards; Continuation::report maps each unanswered continuation to its error via induce_panic; eval::eval never constructs a return value except from a stored output.',
+   note='Not decided: the generated Unmock/CallDefaultImpl arms of #[unimock] impls are validated under C05/C15/C16, not here. Trusted: rustc MIR, exporter, rule engine.'),
 }
 
 checks = []
